@@ -46,40 +46,77 @@ AUX_GUARDS = Aux('parse_guards', 'Transition', PU, [], 'Transition parse_guards'
                  xform=back_xform([], refparams=(), rewrites=SVRW + [dict(name='value-init', pat='Transition res ;', rep='Transition res = { { 0 , 0 } , { 0 , 0 } , { 0 , 0 } , { 0 , 0 } , { 0 , 0 } } ;', min=1, max=1)], drop=DROP_KW | {'constexpr'}))
 AUX_RIGHT = Aux('parse_row_right', 'Transition', PU, [], 'Transition parse_row_right', params='sv_t part',
                 xform=back_xform([], refparams=(), rewrites=SVRW + [dict(name='value-init', pat='Transition res ;', rep='Transition res = { { 0 , 0 } , { 0 , 0 } , { 0 , 0 } , { 0 , 0 } , { 0 , 0 } } ;', min=1, max=1)], drop=DROP_KW | {'constexpr'}))
-H_ROW = '''
+GEN_RIGHT = '''
 static size_t put(char* buf, size_t pos, char c) { __CPROVER_assert(pos < LEN, "harness: generated line fits"); buf[pos] = c; return pos + 1; }
-void h_parse_row(void){
-  /* a line of the documented grammar:  SRC ws ARROW ws TGT [ws ':' ws EV [ws '/' ws ACT] [ws '[' G ']'] ]  (identifiers 1..2 characters) */
-  char buf[LEN]; size_t pos = 0;
-  unsigned ls, lt, le, la, lg, dashes; _Bool sp1, sp2, sp3, sp4, has_ev, has_act, has_g;
-  __CPROVER_assume(1 <= ls && ls <= 2 && 1 <= lt && lt <= 2 && 1 <= le && le <= 2 && 1 <= la && la <= 2 && 1 <= lg && lg <= 2 && 1 <= dashes && dashes <= 2);
+/* ghost description of the part right of the arrow:  ws TGT [ws ':' ws EV [ws '/' ws ACT] [ws '[' G ']'] ]   (offsets into buf) */
+static size_t R_b, R_e, tgt_b, tgt_e, ev_b, ev_e, act_b, act_e, g_b, g_e; static _Bool has_ev, has_act, has_g;
+static size_t gen_ident(char* buf, size_t pos, unsigned l) { for (unsigned i = 0; i < 2; ++i) if (i < l) { char c; __CPROVER_assume(is_ident(c)); pos = put(buf, pos, c); } return pos; }
+static size_t gen_right(char* buf, size_t pos) {
+  unsigned lt, le, la, lg; _Bool sp2, sp3, sp4, sp5; _Bool nd_ev, nd_act, nd_g; has_ev = nd_ev; has_act = nd_act; has_g = nd_g;   /* nondeterministic shape */
+  __CPROVER_assume(1 <= lt && lt <= 2 && 1 <= le && le <= 2 && 1 <= la && la <= 2 && 1 <= lg && lg <= 2);
   __CPROVER_assume(has_ev || (!has_act && !has_g));
-  size_t src_b = pos; for (unsigned i = 0; i < 2; ++i) if (i < ls) { char c; __CPROVER_assume(is_ident(c)); pos = put(buf, pos, c); } size_t src_e = pos;
-  if (sp1) pos = put(buf, pos, ' ');
-  for (unsigned i = 0; i < 2; ++i) if (i < dashes) pos = put(buf, pos, '-'); pos = put(buf, pos, '>');
+  R_b = pos;
   if (sp2) pos = put(buf, pos, ' ');
-  size_t tgt_b = pos; for (unsigned i = 0; i < 2; ++i) if (i < lt) { char c; __CPROVER_assume(is_ident(c)); pos = put(buf, pos, c); } size_t tgt_e = pos;
-  size_t ev_b = 0, ev_e = 0, act_b = 0, act_e = 0, g_b = 0, g_e = 0;
+  tgt_b = pos; pos = gen_ident(buf, pos, lt); tgt_e = pos;
+  ev_b = ev_e = act_b = act_e = g_b = g_e = 0;
   if (has_ev) {
     if (sp3) pos = put(buf, pos, ' '); pos = put(buf, pos, ':'); if (sp4) pos = put(buf, pos, ' ');
-    ev_b = pos; for (unsigned i = 0; i < 2; ++i) if (i < le) { char c; __CPROVER_assume(is_ident(c)); pos = put(buf, pos, c); } ev_e = pos;
-    if (has_act) { if (sp3) pos = put(buf, pos, ' '); pos = put(buf, pos, '/'); if (sp4) pos = put(buf, pos, ' ');
-      act_b = pos; for (unsigned i = 0; i < 2; ++i) if (i < la) { char c; __CPROVER_assume(is_ident(c)); pos = put(buf, pos, c); } act_e = pos; }
-    if (has_g) { if (sp1) pos = put(buf, pos, ' '); pos = put(buf, pos, '[');
-      g_b = pos; for (unsigned i = 0; i < 2; ++i) if (i < lg) { char c; __CPROVER_assume(is_ident(c)); pos = put(buf, pos, c); } g_e = pos; pos = put(buf, pos, ']'); }
+    ev_b = pos; pos = gen_ident(buf, pos, le); ev_e = pos;
+    if (has_act) { if (sp3) pos = put(buf, pos, ' '); pos = put(buf, pos, '/'); if (sp4) pos = put(buf, pos, ' '); act_b = pos; pos = gen_ident(buf, pos, la); act_e = pos; }
+    if (has_g) { if (sp5) pos = put(buf, pos, ' '); pos = put(buf, pos, '['); g_b = pos; pos = gen_ident(buf, pos, lg); g_e = pos; pos = put(buf, pos, ']'); }
   }
+  R_e = pos; return pos; }
+#define CHECK_RIGHT(t, buf) \
+  __CPROVER_assert(sv_eq_range((t).target, buf, tgt_b, tgt_e), "C14.puml-row-target-is-the-text-after-the-arrow"); \
+  __CPROVER_assert(has_ev ? sv_eq_range((t).event, buf, ev_b, ev_e) : (t).event.n == 0, "C14.puml-row-event-is-the-text-after-the-colon"); \
+  __CPROVER_assert(has_act ? sv_eq_range((t).action, buf, act_b, act_e) : (t).action.n == 0, "C14.puml-row-action-is-the-text-after-the-slash"); \
+  __CPROVER_assert(has_g ? sv_eq_range((t).guard, buf, g_b, g_e) : (t).guard.n == 0, "C14.puml-row-guard-is-the-text-in-brackets");
+'''
+H_RIGHT = GEN_RIGHT + '''
+void h_parse_row_right(void){
+  char buf[LEN]; size_t pos = gen_right(buf, 0);
+  __CPROVER_assume(has_ev);     /* parse_row calls parse_row_right only for lines with a ':' (checked by the stub in parse_row.bounded) */
+  sv_t part; part.p = buf; part.n = pos;
+  Transition t = parse_row_right(part);
+  CHECK_RIGHT(t, buf)
+  __CPROVER_assert(!(has_act && has_g), "canary: a line with action and guard is generated");
+}
+'''
+UNITS.append(Unit('front.puml.parse_row_right.bounded', ['C14'], 'front', Part(PU, [], 'Transition parse_row_right ( string_view part )', xform=AUX_RIGHT.xform),
+    'Transition parse_row_right(sv_t part)', 'puml.spec.h', mode='bounded', harness=H_RIGHT, aux=[AUX_CLEAN, AUX_GUARDS],
+    unwind={'quick': 22, 'thorough': 22}, defines=['LEN=20'], timeout=900,
+    bounded='generated right-hand parts of a transition line: target/event/action/guard identifiers of 1-2 characters, 0-1 blanks at each gap (length <= 18)',
+    cbmc_flags=['--no-signed-overflow-check'], replay=['puml']))
+H_ROW = GEN_RIGHT + '''
+static char* g_buf;
+/* checked stub for parse_row_right: its contract (proved by front.puml.parse_row_right.bounded for all generated right parts): called
+   on exactly the text right of the arrow, it returns the four ranges of that text */
+Transition parse_row_right(sv_t part) {
+  __CPROVER_assert(has_ev, "C14.puml-row-without-colon-uses-the-simple-source-target-form");
+  __CPROVER_assert(part.p == g_buf + R_b && part.n == R_e - R_b, "C14.puml-row-right-part-is-the-text-after-the-arrow");
+  Transition t; t.source = sv_empty();
+  t.target.p = g_buf + tgt_b; t.target.n = tgt_e - tgt_b;
+  t.event = has_ev ? (sv_t){ g_buf + ev_b, ev_e - ev_b } : sv_empty();
+  t.action = has_act ? (sv_t){ g_buf + act_b, act_e - act_b } : sv_empty();
+  t.guard = has_g ? (sv_t){ g_buf + g_b, g_e - g_b } : sv_empty();
+  return t; }
+Transition parse_row(sv_t row);
+void h_parse_row(void){
+  char buf[LEN]; g_buf = buf; size_t pos = 0; unsigned ls, dashes; _Bool sp1;
+  __CPROVER_assume(1 <= ls && ls <= 3 && 1 <= dashes && dashes <= 3);
+  size_t src_b = pos; for (unsigned i = 0; i < 3; ++i) if (i < ls) { char c; __CPROVER_assume(is_ident(c)); pos = put(buf, pos, c); } size_t src_e = pos;
+  if (sp1) pos = put(buf, pos, ' ');
+  for (unsigned i = 0; i < 3; ++i) if (i < dashes) pos = put(buf, pos, '-'); pos = put(buf, pos, '>');
+  pos = gen_right(buf, pos);
   sv_t row; row.p = buf; row.n = pos;
   Transition t = parse_row(row);
   __CPROVER_assert(sv_eq_range(t.source, buf, src_b, src_e), "C14.puml-row-source-is-the-text-before-the-arrow");
-  __CPROVER_assert(sv_eq_range(t.target, buf, tgt_b, tgt_e), "C14.puml-row-target-is-the-text-after-the-arrow");
-  __CPROVER_assert(!has_ev || sv_eq_range(t.event, buf, ev_b, ev_e), "C14.puml-row-event-is-the-text-after-the-colon");
-  __CPROVER_assert(has_ev || t.event.n == 0, "C14.puml-row-without-colon-has-no-event");
-  __CPROVER_assert(has_act ? sv_eq_range(t.action, buf, act_b, act_e) : t.action.n == 0, "C14.puml-row-action-is-the-text-after-the-slash");
-  __CPROVER_assert(has_g ? sv_eq_range(t.guard, buf, g_b, g_e) : t.guard.n == 0, "C14.puml-row-guard-is-the-text-in-brackets");
+  CHECK_RIGHT(t, buf)
+  __CPROVER_assert(!(has_ev && dashes == 2 && ls == 3), "canary: a line with an event, a long arrow and a 3-character source is generated");
 }
 '''
 UNITS.append(Unit('front.puml.parse_row.bounded', ['C14'], 'front', Part(PU, [], 'Transition parse_row ( string_view row )'),
-    'Transition parse_row(sv_t row)', 'puml.spec.h', xform=xf_pu, mode='bounded', harness=H_ROW, aux=[AUX_CLEAN, AUX_GUARDS, AUX_RIGHT],
-    unwind={'quick': 22, 'thorough': 22}, defines=['LEN=20'], timeout=900,
-    bounded='generated lines of the documented row grammar: identifiers of 1-2 characters, 0-1 blanks at each gap, arrows -> and -->, optional ": event", "/ action", "[guard]" (line length <= 20)',
+    'Transition parse_row(sv_t row)', 'puml.spec.h', xform=xf_pu, mode='bounded', harness=H_ROW, aux=[AUX_CLEAN],
+    unwind={'quick': 30, 'thorough': 30}, defines=['LEN=28'], timeout=900,
+    bounded='generated transition lines: source identifier of 1-3 characters, arrow of 1-3 dashes, right part as in parse_row_right.bounded (replaced by its checked contract stub), length <= 26',
     cbmc_flags=['--no-signed-overflow-check'], replay=['puml']))
